@@ -58,7 +58,7 @@ ASSUMPTIONS = [
   '+inf; it still takes part in the distinctness check',
 ]
 BUDGET = {'quick': dict(examples=6000, shards=8, max_seconds=60),
-          'thorough': dict(examples=120000, shards=16, max_seconds=600)}
+          'thorough': dict(examples=28000, shards=16, max_seconds=1800)}
 
 INF = float('inf')
 MIN_NORMAL = 2.2250738585072014e-308
